@@ -37,7 +37,7 @@ def _case(args):
     data = _DATA[path]
     if kind == "prefix":
         b = data[:spec]
-    else:
+    elif kind == "corrupt":
         ba = bytearray(data)
         for pos, val, op in spec:
             if op == 0 and pos < len(ba):
@@ -47,6 +47,11 @@ def _case(args):
             elif op == 2 and pos < len(ba):
                 del ba[pos]
         b = bytes(ba)
+    if kind == "splice":
+        b = data[: spec[0]] + bytes(spec[2]) + data[spec[1] :]
+    import resource
+
+    rss0 = resource.getrusage(resource.RUSAGE_SELF).ru_maxrss
     t0 = time.time()
     try:
         src = TzdbDateTimeZoneSource.from_stream(io.BytesIO(b))
@@ -54,13 +59,59 @@ def _case(args):
         step = max(1, len(ids) // fetch)
         for zid in ids[::step]:
             src.for_id(zid)
-        return ("ok", None, time.time() - t0)
+        status = "ok"
     except InvalidPyodaDataError:
-        return ("rejected", None, time.time() - t0)
+        status = "rejected"
     except Exception as e:  # noqa: BLE001
         tb = traceback.extract_tb(e.__traceback__)
         where = next((f"{os.path.basename(fr.filename)}:{fr.name}" for fr in reversed(tb) if "pyoda_time" in fr.filename), "?")
-        return ("leak", (type(e).__name__, where, kind, spec if kind == "prefix" else [list(x) for x in spec], os.path.basename(path)), time.time() - t0)
+        return ("leak", (type(e).__name__, where, kind, _spec_repr(kind, spec), os.path.basename(path)), time.time() - t0)
+    grown = (resource.getrusage(resource.RUSAGE_SELF).ru_maxrss - rss0) // 1024
+    if grown > 96:
+        return ("leak", (f"memory +{grown} MB", "from_stream", kind, _spec_repr(kind, spec), os.path.basename(path)), time.time() - t0)
+    return (status, None, time.time() - t0)
+
+
+def _spec_repr(kind, spec):
+    if kind == "prefix":
+        return spec
+    if kind == "splice":
+        return [spec[0], spec[1], bytes(spec[2]).hex()]
+    return [list(x) for x in spec]
+
+
+def _limit_memory():
+    """Workers may not grow by more than ~1.5 GiB: a damaged length must not be able to exhaust the sandbox."""
+    import resource
+
+    try:
+        with open("/proc/self/statm") as f:
+            pages = int(f.read().split()[0])
+        cur = pages * os.sysconf("SC_PAGE_SIZE")
+        resource.setrlimit(resource.RLIMIT_AS, (cur + (3 << 29), cur + (3 << 29)))
+    except Exception:  # noqa: BLE001
+        pass
+
+
+def _framing(data: bytes):
+    """Top-level fields of a clean file: (header offset, id, payload offset, payload length)."""
+    out = []
+    p = 4
+    while p < len(data):
+        h = p
+        fid = data[p]
+        p += 1
+        n = s_ = 0
+        while True:
+            bt = data[p]
+            p += 1
+            n |= (bt & 0x7F) << s_
+            s_ += 7
+            if bt < 0x80:
+                break
+        out.append((h, fid, p, n))
+        p += n
+    return out
 
 
 def run(tier: str, seed: int) -> dict:
@@ -79,11 +130,32 @@ def run(tier: str, seed: int) -> dict:
             base = rng.randrange(n)
             spec = tuple((min(n - 1, base + rng.randrange(0, 6)) if rng.random() < 0.5 else rng.randrange(n), rng.randrange(256), rng.choice([0, 0, 0, 1, 2])) for _ in range(k))
             cases.append((path, "corrupt", spec, 12))
+        # structural faults at the real field framing: field lost / truncated at a field boundary / id rewritten /
+        # length replaced by huge values / field duplicated
+        with open(path, "rb") as f:
+            data = f.read()
+        fields = _framing(data)
+        firsts = {}
+        for fr in fields:
+            firsts.setdefault(fr[1], fr)
+        picked = list(firsts.values()) + [fields[rng.randrange(len(fields))] for _ in range(int(6 * scale))] + [fields[-1]]
+        huge = [b"\xff\xff\xff\x7f", b"\xff\xff\xff\xff\x07", b"\xff\xff\xff\xff\x0f", b"\xff\xff\xff\xff\xff\xff\xff\xff\xff\x01"]
+        for h, fid, po, ln in picked:
+            cases.append((path, "prefix", h, 6))
+            cases.append((path, "prefix", po, 6))
+            cases.append((path, "splice", (h, po + ln, b""), 6))  # field removed
+            cases.append((path, "splice", (h, h, data[h : po + ln]), 6))  # field duplicated
+            for nid in range(0, 9):
+                if nid != fid:
+                    cases.append((path, "splice", (h, h + 1, bytes([nid])), 6))
+            for hv in huge:
+                cases.append((path, "splice", (h + 1, po, hv), 4))
+                cases.append((path, "splice", (h + 1, h + 1, hv[:4]), 4))  # inserted before the length
     ctx = mp.get_context("fork")
     leaks: dict[tuple, tuple] = {}
     slow = []
     counts = {"ok": 0, "rejected": 0, "leak": 0}
-    with ctx.Pool(16) as pool:
+    with ctx.Pool(16, initializer=_limit_memory) as pool:
         for res in pool.imap_unordered(_case, cases, chunksize=8):
             status, info, dt = res
             counts[status] += 1
@@ -97,6 +169,6 @@ def run(tier: str, seed: int) -> dict:
     for dt in slow[:3]:
         violations.append({"name": "C20.slow", "kind": "standin", "detail": f"a load took {dt:.1f}s", "contract": "standin", "replay": {"confirmed": True}})
     return {
-        "bounded": [{"name": "truncation/corruption sweep of both real database files", "bound": f"{len(cases)} seeded faults (prefixes and 1..4 byte substitutions/insertions/deletions)", "evaluations": len(cases), "distinct_nontrivial": counts["rejected"] + counts["leak"], "rule": "non-trivial = the damaged stream was not accepted", "exhaustive": False, "outcomes": counts}],
+        "bounded": [{"name": "truncation/corruption sweep of both real database files", "bound": f"{len(cases)} faults: seeded prefixes and 1..4 byte substitutions/insertions/deletions, plus structural faults at the real field framing (field removed/duplicated/retagged, truncation at field boundaries, huge declared lengths) under a memory cap", "evaluations": len(cases), "distinct_nontrivial": counts["rejected"] + counts["leak"], "rule": "non-trivial = the damaged stream was not accepted", "exhaustive": False, "outcomes": counts}],
         "violations": violations,
     }
